@@ -8,6 +8,7 @@ package actor
 //                          yielding sync shim) under the deterministic scheduler
 
 import (
+	"sync/atomic"
 	"context"
 	"fmt"
 	"sort"
@@ -26,10 +27,31 @@ type vTreeH struct {
 	e     *Engine
 	order []string // "X:<path>:<registered 0|1>" in the order Stopped was handled
 	ctx   context.Context // non-nil: every actor of this history is spawned WithContext(ctx), and ctx is ALREADY cancelled
+	budget   int               // MaxRestarts of every actor of this history (ry roots: 1)
+	inflight map[string]*int32 // per actor: number of Receive calls in progress (C02: never more than one)
+}
+
+func (h *vTreeH) enter(path string) func() {
+	h.mu.Lock()
+	if h.inflight == nil {
+		h.inflight = map[string]*int32{}
+	}
+	c := h.inflight[path]
+	if c == nil {
+		c = new(int32)
+		h.inflight[path] = c
+	}
+	h.mu.Unlock()
+	if atomic.AddInt32(c, 1) > 1 {
+		h.mu.Lock()
+		h.order = append(h.order, "O:"+path+":1") // two Receive calls of one actor overlap
+		h.mu.Unlock()
+	}
+	return func() { atomic.AddInt32(c, -1) }
 }
 
 func (h *vTreeH) opts() []OptFunc {
-	o := []OptFunc{WithID("n"), WithMaxRestarts(0), WithInboxSize(4)}
+	o := []OptFunc{WithID("n"), WithMaxRestarts(h.budget), WithInboxSize(4), WithRestartDelay(time.Millisecond)}
 	if h.ctx != nil {
 		o = append(o, WithContext(h.ctx))
 	}
@@ -56,6 +78,7 @@ type vTreeActor struct {
 }
 
 func (a *vTreeActor) Receive(c *Context) {
+	defer a.h.enter(a.path)()
 	switch m := c.Message().(type) {
 	case Started:
 		if a.crashOnStart {
@@ -154,11 +177,15 @@ func runTreeHistory(t testing.TB, ops []string) string {
 		return ps
 	}
 	held := map[string]vTreeHold{}
+	crashed := map[string]bool{}
 	var out []string
 	for _, op := range ops {
 		kind, arg := op[:2], op[2:]
 		switch kind {
-		case "rt", "rx": // spawn a root; rx: the user context handed to every actor of the history (WithContext) is already cancelled
+		case "rt", "rx", "ry": // spawn a root; rx: the user context of every actor (WithContext) is already cancelled; ry: restart budget 1
+			if kind == "ry" {
+				h.budget = 1
+			}
 			if kind == "rx" {
 				cctx, cancel := context.WithCancel(context.Background())
 				cancel()
@@ -220,6 +247,22 @@ func runTreeHistory(t testing.TB, ops []string) string {
 				out = append(out, "skip")
 				continue
 			}
+			if kind == "cr" && h.budget == 1 && !crashed[arg] {
+				// first crash of this actor, within its budget: it is restarted; its children stay its children
+				crashed[arg] = true
+				takeOrder()
+				e.Send(pidOf(arg), vTreeCrash{})
+				ack := make(chan string, 1)
+				e.Send(pidOf(arg), vTreeQuery{ack})
+				select {
+				case r := <-ack:
+					out = append(out, "restarted "+r)
+				case <-time.After(3 * time.Second):
+					out = append(out, "restarted NOANSWER")
+				}
+				takeOrder() // the crashed incarnation's own Stopped
+				continue
+			}
 			sub := subtree(arg)
 			takeOrder()
 			res := "done"
@@ -252,6 +295,7 @@ func runTreeHistory(t testing.TB, ops []string) string {
 			}
 			for _, p := range sub {
 				delete(live, p)
+				delete(crashed, p)
 			}
 			out = append(out, res+" order="+strings.Join(takeOrder(), ","))
 		case "tp": // tp<parent>: the parent shuts down; while it waits for a slow child a third party stops a sibling
@@ -320,6 +364,7 @@ func runTreeHistory(t testing.TB, ops []string) string {
 			}
 			for _, p := range sub {
 				delete(live, p)
+				delete(crashed, p)
 			}
 			out = append(out, res+" order="+strings.Join(takeOrder(), ","))
 		case "hp": // hold a node inside Receive and queue a graceful pill behind the hold (a third party poisons it)
@@ -375,6 +420,8 @@ func TestVerifTree(t *testing.T) {
 		ops := []string{"rtr"}
 		if rr.Chance(1, 4) {
 			ops = []string{"rxr"} // the user's own context (WithContext) is cancelled: no bearing on stopping
+		} else if rr.Chance(1, 4) {
+			ops = []string{"ryr"} // restart budget 1: the first crash of an actor restarts it (children kept), the second stops it
 		}
 		nodes := []string{"r"}
 		// build a random tree: depth <= 4, fan-out <= 4
